@@ -999,6 +999,12 @@ func GenKey(r *vfutil.Rand, eff Cfg) []byte {
 	default: // prefix + slot steering
 		p := prefixPart()
 		if s, ok := slotPart(); ok {
+			switch r.Intn(8) {
+			case 0: // an empty first tag: Redis hashes the WHOLE key, the later tag (steered) must not count
+				return KeyInSlot(append(p, '{', '}'), s, filler(r.Intn(3)))
+			case 1: // an unterminated first brace after the steered tag / a second tag after it
+				return append(KeyInSlot(p, s, filler(r.Intn(2))), []byte(vfutil.Pick(r, []string{"{", "{x}", "{}", "}{y}"}))...)
+			}
 			return KeyInSlot(p, s, filler(r.Intn(3)))
 		}
 		return append(p, filler(r.Intn(5))...)
@@ -1340,5 +1346,33 @@ func (e *Env) RunGolden() {
 			}
 			e.OpFck(c, f, name, args)
 		}
+	}
+}
+
+// BraceSweep asks about every string of length <= maxLen over {'{','}','a','b'} (all brace
+// arrangements: empty first tag followed by a tag, nested, unterminated, ...) under slot rules
+// that cut the slot space in halves and quarters, so that a wrongly computed slot flips the
+// decision with probability 1/2.
+func (e *Env) BraceSweep(maxLen int) {
+	cfgs := []Cfg{
+		{SW: [][]uint16{{0, 8191}}},
+		{SB: [][]uint16{{0, 4095}, {8192, 12287}}},
+	}
+	alpha := []byte{'{', '}', 'a', 'b'}
+	for _, c := range cfgs {
+		f := e.Make(c)
+		var rec func(k []byte)
+		rec = func(k []byte) {
+			if len(k) > 0 {
+				e.OpKey(c, f, k)
+			}
+			if len(k) == maxLen {
+				return
+			}
+			for _, ch := range alpha {
+				rec(append(append([]byte{}, k...), ch))
+			}
+		}
+		rec(nil)
 	}
 }
